@@ -49,9 +49,12 @@ def txprog_replay(ctx, tracef, sc, seed, rounds, widen, lines):
     return False
 
 
-def run_scenarios(ctx, plan, label, mem_limit=False, txprog=False):
+def run_scenarios(ctx, plan, label, mem_limit=False, txprog=False, prog_replay=True):
     """plan: list of (scenario, rounds, widen). Returns number of runs.
-    txprog: also replay the recorded trace against the program model of tx.go (C05 / C06 / C07)."""
+    txprog: also replay the recorded trace against the program model of tx.go (C05 / C06 / C07).
+    prog_replay=False: the trace is checked against the PROTOCOL models only (locking, wake-up, gate), not against the
+    program-level models of the blocking-pop and gate code (C17: half a million events of hostile traffic per run - the
+    program-level replays belong to C18 / C08 / C09 and cost 40 s there)."""
     h = vlib.build_harness(ctx)
     runs = 0
     events = 0
@@ -95,6 +98,8 @@ def run_scenarios(ctx, plan, label, mem_limit=False, txprog=False):
         # the recorded protocol trace must be a run of the Lean model
         if os.path.exists(tracef):
             add_bpop_calls(tracef)
+            if not prog_replay:
+                open(tracef, "w").write("noprog\n" + open(tracef).read())
             p = subprocess.run([f"{vlib.LEAN}/.lake/build/bin/driver"], stdin=open(tracef), capture_output=True, text=True, timeout=1800)
             out = p.stdout.split("\n")
             lines = open(tracef).read().split("\n")
